@@ -152,6 +152,7 @@ func (w *World) Verify(c *Contract) (res *TargetResult) {
 	allProps := contractProps(c)
 
 	if c.Lemma {
+		x.revealAll = true
 		cl := c.Ensures[0]
 		fn := w.ClauseFn[cl.GoFunc]
 		if fn == nil {
